@@ -114,6 +114,57 @@ def gen_bytes(rng):
     return bytes(rng.choice(lead if rng.random() < .4 else cont) for _ in range(rng.randint(1, 7)))
 
 
+# the Content-Type header in front of an urlencoded body: the media type in several spellings, every kind of
+# parameter a client or an HTTP stack may stamp on it - above all `charset=` with UTF-8 aliases, legacy labels,
+# labels of codecs that are not text encodings, labels no codec exists for - in several layouts.  None of it may
+# change what forms / POST / params show: the escapes of an urlencoded body are UTF-8 whatever the label says.
+FORM_TYPE = 'application/x-www-form-urlencoded'
+MEDIA = [FORM_TYPE] * 8 + ['Application/X-WWW-Form-UrlEncoded', FORM_TYPE.upper(), FORM_TYPE + ' ', ' ' + FORM_TYPE, 'text/plain',
+                           'text/html', 'application/octet-stream', 'application/xml', 'text/json', '', '*/*', 'x',
+                           'application/jso', 'multipar/form-data', 'application/x-url-encoded', 'É/é']
+CHARSETS = ['utf-8', 'UTF-8', 'utf8', 'utf_8', 'U8', '"utf-8"', "'utf-8'", 'utf-8-sig', 'iso-8859-1', 'ISO-8859-1', 'latin1',
+            'latin-1', 'l1', 'iso-8859-15', 'iso-8859-2', 'us-ascii', 'ascii', 'windows-1252', 'cp1252', 'cp1251', 'cp437',
+            'utf-16', 'utf-16le', 'utf-16be', 'utf-32', 'utf-7', 'shift_jis', 'euc-jp', 'gbk', 'gb18030', 'big5', 'koi8-r',
+            'cp037', 'mac-roman', 'idna', 'punycode', 'rot13', 'rot_13', 'hex', 'base64', 'zlib', 'bz2', 'uu', 'quopri',
+            'undefined', 'unicode-escape', 'raw_unicode_escape', 'mbcs', 'oem', 'unicode-1-1-utf-8', 'x-user-defined',
+            'x-sjis', 'binary', 'none', 'null', 'bogus', 'utf-9', 'utf', '8', '', '*', '%', 'é', 'utf-8; q=1', 'a b', '=',
+            'iso-8859-1,utf-8', '\x00', 'utf-8\x00']
+OTHER_PARAMS = ['boundary=x', 'q=0.5', 'version=1', 'name="a;b"', 'x', '', '=', 'charset', 'format=flowed', 'encoding=latin1',
+                'accept-charset=iso-8859-1', '_charset_=iso-8859-1']
+
+
+def gen_ctype(rng, form_only=False):
+    """a Content-Type header (None = absent) that is neither multipart/... nor application/json"""
+    k = rng.random()
+    if k < .06 and not form_only:
+        return None
+    media = FORM_TYPE if form_only and rng.random() < .8 else rng.choice(MEDIA[:12] if form_only else MEDIA)
+    if k < .2:
+        return media
+    params = []
+    for _ in range(rng.choice([1, 1, 1, 2, 3])):
+        if rng.random() < .75:
+            name = rng.choice(['charset', 'charset', 'charset', 'Charset', 'CHARSET', 'charset ', ' charset'])
+            eq = rng.choice(['=', '=', '=', ' = ', '= ', ' ='])
+            params.append(name + eq + rng.choice(CHARSETS))
+        else:
+            params.append(rng.choice(OTHER_PARAMS))
+    sep = rng.choice(['; ', '; ', ';', ' ;', ' ; ', ';\t'])
+    return media + sep + sep.join(params) + rng.choice(['', '', '', ';', ' '])
+
+
+def ctype_feature(ctype):
+    """fingerprint of the class of header, for the finding key"""
+    if ctype is None:
+        return 'absent'
+    low = ctype.lower()
+    if 'charset' in low:
+        return 'charset-parameter'
+    if ';' in low:
+        return 'other-parameter'
+    return 'bare-form-type' if low.strip() == FORM_TYPE else 'other-media-type'
+
+
 def show_pairs(l):
     return ','.join(f'{hs(k)}:{hs(v)}' for k, v in l) if l else '~'
 
@@ -319,10 +370,10 @@ class C18(Check):
             body = qs.encode('latin1')
         except UnicodeEncodeError:
             body = qs.encode('utf8')       # raw UTF-8 bytes in a body: read back as Latin-1 text
-        ctype = rng.choice(['application/x-www-form-urlencoded', 'application/x-www-form-urlencoded; charset=utf-8',
-                            None, 'text/plain', ''])
-        out.append((f'qs forms {hb(body)}',
-                    guarded(lambda: self._request(Request, '', body, ctype).forms, show_dict), sample))
+        ctype = gen_ctype(rng)
+        st['ctype_' + ctype_feature(ctype)] = st.get('ctype_' + ctype_feature(ctype), 0) + 1
+        out.append((f'qs formsct {core.opt(ctype, hs)} {hb(body)}',
+                    guarded(lambda: self._request(Request, '', body, ctype).forms, show_dict), dict(sample, ctype=ctype)))
 
     def corr(self, rng, n):
         helpers, Request = self._mods()
@@ -364,9 +415,10 @@ class C18(Check):
             qs = urllib.parse.urlencode(p1) if rng.random() < .8 else gen_raw(rng)
             body = (urllib.parse.urlencode(p2) if rng.random() < .8 else gen_raw(rng)).encode('utf8')
             bump('params')
-            out.append((f'qs params {hs(qs)} {hb(body)}',
-                        guarded(lambda: self._request(Request, qs, body).params, show_dict),
-                        dict(kind='params', qs=qs, body=body.decode('latin1'))))
+            ctype = gen_ctype(rng)
+            out.append((f'qs paramsct {core.opt(ctype, hs)} {hs(qs)} {hb(body)}',
+                        guarded(lambda: self._request(Request, qs, body, ctype).params, show_dict),
+                        dict(kind='params', qs=qs, body=body.decode('latin1'), ctype=ctype)))
         # 3. malformed raw strings
         for _ in range(n):
             if spent():
@@ -421,22 +473,24 @@ class C18(Check):
                     body = raw.encode('utf8')
             qs = urllib.parse.urlencode(gen_pairs(rng)) if rng.random() < .4 else ''
             ops, framing, sched, cuts = gen_access(rng, len(body))
-            status, outs = run_form_request(body, qs, framing, sched, ops, cuts)
+            ctype = gen_ctype(rng) if rng.random() < .6 else FORM_TYPE
+            status, outs = run_form_request(body, qs, framing, sched, ops, cuts, ctype=ctype)
             bump('wsgi')
+            bump('wsgi_ctype_' + ctype_feature(ctype))
             bump('wsgi_' + framing)
             bump(f'wsgi_status_{status}')
             if any(o[0] in 'BP' for o in ops[:-1]) and any(o in ('F', 'O', 'A') for o in ops[1:]):
                 bump('wsgi_body_read_before_forms')
             sample = dict(kind='wsgi', pairs=pairs, body=body.decode('latin1'), qs=qs, framing=framing, sched=sched[:40],
-                          ops=ops, cuts=cuts)
+                          ops=ops, cuts=cuts, ctype=ctype)
             k = 0
             for op in ops:
                 got = outs[k][1] if k < len(outs) else f'status={status}'
                 k += 1
                 if op in ('F', 'O'):
-                    out.append((f'qs forms {hb(body)}', got, sample))
+                    out.append((f'qs formsct {core.opt(ctype, hs)} {hb(body)}', got, sample))
                 elif op == 'A':
-                    out.append((f'qs params {hs(qs)} {hb(body)}', got, sample))
+                    out.append((f'qs paramsct {core.opt(ctype, hs)} {hs(qs)} {hb(body)}', got, sample))
                 elif op == 'Q':
                     out.append((f'qs query {hs(qs)}', got, sample))
         return out
@@ -512,7 +566,38 @@ class C18(Check):
             return f'wsgi-status:{framing}', f'{framing} body {body!r}, accesses {ops}: status {status}'
         return None
 
-    def _oracle_total(self, qs):
+    def _oracle_ctype(self, pairs, flavour, ctype):
+        """the pairs sent as an urlencoded body under the Content-Type `ctype` (the form type with any parameters, or no
+        header): forms / POST / params are the sent pairs, escapes decoded as UTF-8 whatever the header says, nothing
+        raises - read from a Request object and inside a WSGI call under both framings"""
+        helpers, Request = self._mods()
+        enc = {'quote_plus': lambda p: urllib.parse.urlencode(p),
+               'quote': lambda p: urllib.parse.urlencode(p, quote_via=urllib.parse.quote)}[flavour]
+        body = enc(pairs).encode('ascii')
+        exp = expected_dict(pairs)
+        feat = ctype_feature(ctype)
+        for name in ('forms', 'POST', 'params'):
+            try:
+                d = core.with_timeout(lambda: dict(getattr(self._request(Request, '', body, ctype), name)), 2)
+            except core.Hang:
+                return 'hang', f'Request.{name} does not terminate on {body!r} under Content-Type {ctype!r}'
+            except Exception as e:  # noqa
+                return (f'content-type:{feat}:raises:{type(e).__name__}',
+                        f'Request.{name} raises {type(e).__name__}: {e} for body {body!r} under Content-Type {ctype!r}')
+            if d != exp:
+                return (f'content-type:{feat}:{self._classify(pairs, d, name)}',
+                        f'Request.{name} for body {body!r} under Content-Type {ctype!r} = {d!r}, expected {exp!r}')
+        want = sorted(show_dict(exp)[3:].split(','))
+        for framing in ('cl', 'chunked'):
+            status, outs = run_form_request(body, '', framing, [], ['F', 'A', 'O'], [5, 3], ctype=ctype)
+            got = [sorted(o[1][3:].split(',')) if o[1].startswith('ok ') else o[1] for o in outs]
+            if status != 200 or got != [want] * 3:
+                return (f'content-type:{feat}:wsgi:{framing}',
+                        f'{framing} body {body!r} under Content-Type {ctype!r}: status {status}, forms/params/POST = '
+                        f'{[o[1] for o in outs]!r}, sent {list(pairs)!r}')
+        return None
+
+    def _oracle_total(self, qs, ctype=FORM_TYPE):
         helpers, Request = self._mods()
         try:
             body = qs.encode('latin1')
@@ -520,13 +605,15 @@ class C18(Check):
             body = qs.encode('utf8')
         for name, fn in (('parse_qsl', lambda: helpers.parse_qsl(qs)),
                          ('query', lambda: self._request(Request, qs, b'').query),
-                         ('forms', lambda: self._request(Request, '', body).forms)):
+                         ('forms', lambda: self._request(Request, '', body, ctype).forms),
+                         ('params', lambda: self._request(Request, qs, body, ctype).params)):
             try:
                 core.with_timeout(fn, 2)
             except core.Hang:
                 return 'hang', f'{name} does not terminate on {qs!r}'
             except Exception as e:  # noqa
-                return f'raises:{type(e).__name__}', f'{name} raises {type(e).__name__}: {e} on {qs!r}'
+                under = f' (Content-Type {ctype!r})' if name in ('forms', 'params') and ctype != FORM_TYPE else ''
+                return f'raises:{type(e).__name__}', f'{name} raises {type(e).__name__}: {e} on {qs!r}{under}'
         return None
 
     def search(self, rng, n, seeds):
@@ -556,6 +643,26 @@ class C18(Check):
             cases.append(('pairs', pairs, rng.choice(['quote_plus', 'quote'])))
         for _ in range(n // 2):
             cases.append(('raw', gen_raw(rng), None))
+        # the Content-Type axis: the form type with every kind of parameter (charset labels above all) or no header,
+        # over bodies with non-ASCII escapes (named and generated) and over raw strings (totality)
+        for s in seeds:
+            if s.get('ctype') is not None and s.get('pairs') and all(k for k, _ in s['pairs']) and \
+                    s['ctype'].lower().strip().startswith(FORM_TYPE):
+                cases.append(('ctype', [tuple(p) for p in s['pairs']], ['quote_plus', s['ctype']]))
+        nonascii = [[('name', 'Zo\xeb')], [('\xe9', '\u20ac'), ('\U0001f600', 'x')], [('a', '\xe9'), ('a', '\xff'), ('b', '+&=%')],
+                    [('k\u0100', 'v')], [('a', 'b')], [('a b', '100%')]]
+        for cs in CHARSETS:
+            for j, layout in enumerate(('%s; charset=%s', '%s;charset=%s', '%s; Charset=%s', '%s ; q=1; charset=%s;')):
+                cases.append(('ctype', nonascii[(len(cs) + j) % len(nonascii)], [('quote_plus', 'quote')[j % 2],
+                                                                                 layout % (FORM_TYPE, cs)]))
+            cases.append(('rawct', rng.choice(['%', 'a=%E9', '%C3%A9=%', 'a=%FF&b=%C3', '=&%4']), FORM_TYPE + '; charset=' + cs))
+        for _ in range(n // 3):
+            pairs = [(k, v) for k, v in gen_pairs(rng) if k]
+            if rng.random() < .6:
+                pairs.append((gen_text(rng, False), rng.choice(NONASCII) + gen_text(rng)))
+            cases.append(('ctype', pairs, [rng.choice(['quote_plus', 'quote']), gen_ctype(rng, form_only=True)]))
+        for _ in range(n // 4):
+            cases.append(('rawct', gen_raw(rng), gen_ctype(rng, form_only=True)))
         # the Request layer in a WSGI call: every access sequence x both framings x whole / one-byte / ragged reads
         for s in seeds:
             if s.get('kind') == 'wsgi' and s.get('pairs') is not None and all(k for k, _ in s['pairs']):
@@ -576,6 +683,7 @@ class C18(Check):
             evals += 1
             try:
                 bad = (self._oracle_pairs(x, fl) if kind == 'pairs' else self._oracle_wsgi(x, *fl) if kind == 'wsgi'
+                       else self._oracle_ctype(x, *fl) if kind == 'ctype' else self._oracle_total(x, fl) if kind == 'rawct'
                        else self._oracle_total(x))
             except core.Hang:
                 bad = ('hang', f'does not terminate on {x!r}')
@@ -597,6 +705,20 @@ class C18(Check):
         helpers, Request = self._mods()
         if i.get('kind') == 'wsgi' and 'value' not in i and i.get('pairs') is not None:   # a correspondence sample
             i = dict(kind='wsgi', value=i['pairs'], flavour=(i['framing'], i['sched'], i['ops'], i['cuts']))
+        if i.get('kind') == 'ctype' and 'value' in i:
+            pairs = [tuple(p) for p in i['value']]
+            flavour, ctype = i['flavour']
+            body = urllib.parse.urlencode(pairs, **({'quote_via': urllib.parse.quote} if flavour == 'quote' else {})).encode('ascii')
+            return dict(input=i, body=body.decode('ascii'), content_type=ctype, expected=expected_dict(pairs),
+                        forms_now=guarded(lambda: dict(self._request(Request, '', body, ctype).forms), lambda d: d),
+                        params_now=guarded(lambda: dict(self._request(Request, '', body, ctype).params), lambda d: d),
+                        oracle=self._oracle_ctype(pairs, flavour, ctype))
+        if i.get('kind') == 'rawct' and 'value' in i:
+            qs, ctype = i['value'], i['flavour']
+            body = qs.encode('latin1', 'replace')
+            return dict(input=i, content_type=ctype,
+                        forms_now=guarded(lambda: dict(self._request(Request, '', body, ctype).forms), lambda d: d),
+                        oracle=self._oracle_total(qs, ctype))
         if i.get('kind') == 'wsgi' and 'value' in i:
             pairs = [tuple(p) for p in i['value']]
             framing, sched, ops, cuts = i['flavour']
